@@ -52,6 +52,10 @@ type FlowOpts struct {
 }
 
 // pure string/path helpers through which "derived from the argument" flows.
+var freshConcat = map[string]bool{
+	"bytes.Join": true, "strings.Join": true, "bytes.Repeat": true, "bytes.Clone": true, "slices.Concat": true, "slices.Clone": true,
+}
+
 var pureStringFuncs = map[string][]int{
 	"path.Clean":                                   {0},
 	"path/filepath.Clean":                          {0},
@@ -361,6 +365,29 @@ func recCall(c *ssa.Call, resultIdx int, path []string, d int, opt FlowOpts,
 			rec(c.Call.Args[0], append(path, "append"), d+1)
 			return
 		}
+	}
+	// standard-library concatenators: the result is a newly allocated slice/string whose content
+	// is taken from every element of the arguments (bytes.Join copies even a single element)
+	if ci.Static != nil && freshConcat[qualName(ci.Static)] {
+		if opt.Alias {
+			leaf(Origin{Kind: "alloc", Name: lastSeg(qualName(ci.Static)), Val: c}, path)
+			return
+		}
+		pushVia(c)
+		for _, a := range c.Call.Args {
+			// a literal [][]byte{x, y, z}: its elements
+			if sl, ok := a.(*ssa.Slice); ok {
+				if els := arrayElems(sl.X); els != nil {
+					for _, e := range els {
+						rec(e, append(path, ci.Static.Name()), d+1)
+					}
+					continue
+				}
+			}
+			rec(a, append(path, ci.Static.Name()), d+1)
+		}
+		popVia()
+		return
 	}
 	if acc := accumulatorResult(ci); acc != nil {
 		if opt.Alias {
